@@ -6,6 +6,7 @@
 package runner
 
 import (
+	"runtime"
 	"context"
 	"fmt"
 	"io/ioutil"
@@ -82,7 +83,10 @@ func Start(cfg Config) *Session {
 		chunk = 128
 	}
 	if canary == 0 {
-		canary = 256
+		// (the flag's default is 256; a sorting reader that sees more rows than its canary sizes its
+		// next frame to the 32 MiB spill target, i.e. millions of rows - by design, but far too heavy for
+		// thousands of generated programs; the small canaries are exercised by C10 and C04)
+		canary = 1 << 14
 	}
 	if spill == 0 {
 		spill = chunk
@@ -196,19 +200,64 @@ func Scan(ctx context.Context, res *exec.Result, schema progen.Schema) (rows []p
 	return rows, sc.Err()
 }
 
-// WithTimeout runs f and reports whether it finished within d.
+// WithTimeout runs f and reports whether it finished within its budget. The
+// budget is d on an idle host; it is stretched by the host's load (1-minute
+// load average per CPU, at most 8x), re-read while waiting, because the
+// "never blocks" clauses are decided by a time budget and a budget that a
+// busy machine can exhaust would turn slowness into a reported wedge.
 func WithTimeout(d time.Duration, f func()) bool {
 	done := make(chan struct{})
 	go func() {
 		defer close(done)
 		f()
 	}()
-	select {
-	case <-done:
-		return true
-	case <-time.After(d):
-		return false
+	start := time.Now()
+	limit := d
+	for {
+		wait := limit - time.Since(start)
+		if wait > 5*time.Second {
+			wait = 5 * time.Second
+		}
+		if wait < 0 {
+			wait = 0
+		}
+		select {
+		case <-done:
+			return true
+		case <-time.After(wait):
+		}
+		if l := time.Duration(float64(d) * LoadFactor()); l > limit {
+			limit = l
+		}
+		if time.Since(start) >= limit {
+			select {
+			case <-done:
+				return true
+			default:
+			}
+			return false
+		}
 	}
+}
+
+// LoadFactor is max(1, load1/ncpu), capped at 8.
+func LoadFactor() float64 {
+	b, err := ioutil.ReadFile("/proc/loadavg")
+	if err != nil {
+		return 1
+	}
+	var l1 float64
+	if _, err := fmt.Sscanf(string(b), "%f", &l1); err != nil {
+		return 1
+	}
+	f := l1 / float64(runtime.NumCPU())
+	if f < 1 {
+		return 1
+	}
+	if f > 8 {
+		return 8
+	}
+	return f
 }
 
 var _ = bigmachine.Local
